@@ -42,9 +42,16 @@ pub fn child(args: &[String]) {
     let ext = ["yaml", "json", "toml"][fmt];
     // modification times are set explicitly (version k: base + 10 k seconds): two writes within one tick of the
     // filesystem clock would otherwise carry the same time, which the reloader's mtime shortcut cannot see by design
-    let stamp = |p: &std::path::Path, k: usize| {
+    // (in every fourth scenario the stamps are the moment of the edit itself - distinct, increasing, and only
+    // milliseconds old when the next poll looks: how old a change is plays no part, Reloader.tla has mtimes, no ages)
+    let young = scen % 4 == 2;
+    let stamp = move |p: &std::path::Path, k: usize| {
         let f = std::fs::OpenOptions::new().write(true).open(p).unwrap();
-        f.set_modified(std::time::SystemTime::UNIX_EPOCH + Duration::from_secs(1_700_000_000 + 10 * k as u64)).unwrap();
+        if young {
+            f.set_modified(std::time::SystemTime::now()).unwrap();
+        } else {
+            f.set_modified(std::time::SystemTime::UNIX_EPOCH + Duration::from_secs(1_700_000_000 + 10 * k as u64)).unwrap();
+        }
     };
     let write_version = move |dir: &std::path::Path, path: &std::path::Path, k: usize, text: Option<String>| {
         if !linked {
